@@ -124,7 +124,7 @@ def mutants(rng, prog, kind, m, fields, others):
         # long unknown documents full of multi-byte characters, shifted byte by byte: whatever the decoder does with the text it echoes
         # (cutting, escaping, measuring) happens at a position inside a character for one of the shifts
         for shift in range(3):
-            pad = "a" * shift + "\u00e9\u20ac\U0001d11e".encode().decode("unicode_escape") * rng.choice([15, 30, 120, 400])
+            pad = "a" * shift + "\u00e9\u20ac\U0001d11e" * rng.choice([15, 30, 120, 400])
             A(("unknown-name-long", obj_text([("no_such_msg_%d" % rng.randrange(9), obj_text([("zz", json.dumps(pad, ensure_ascii=False))]))])))
     if others:
         o, ofields = rng.choice(others)
